@@ -17,7 +17,8 @@ use std::str::FromStr;
 
 pub const HEADER: &str = "DECLARE ro BIT\nDECLARE raw REAL[4]\nDECLARE theta REAL\nDECLARE n INTEGER\nDECLARE a REAL\nDECLARE b REAL\nDEFFRAME 0 \"a\":\n    SAMPLE-RATE: 1.0\nDEFFRAME 1 \"a\":\n    SAMPLE-RATE: 1.0\nDEFFRAME 0 1 \"c\":\n    SAMPLE-RATE: 1.0\nDEFFRAME 0 \"b\":\n    SAMPLE-RATE: 1.0\nDEFWAVEFORM wf:\n    1, 1, 1, 1\n";
 
-/// general menu: frames on overlapping qubit sets, blocking / non-blocking, every RF kind,
+/// general menu: frames on overlapping qubit sets, blocking / non-blocking, every RF kind, a pulse on
+/// an undefined frame of an unused qubit (matches nothing) and one on a used qubit (only *blocks*),
 /// classical readers / writers, control flow (multi-block)
 pub const MENU_F: &[&str] = &[
     "PULSE 0 \"a\" flat(duration: 1.0, iq: 1)",
@@ -38,6 +39,7 @@ pub const MENU_F: &[&str] = &[
     "SWAP-PHASES 0 \"a\" 1 \"a\"",
     "RESET 0",
     "PULSE 2 \"z\" flat(duration: 1.0, iq: 1)",
+    "PULSE 1 \"zz\" flat(duration: 1.0, iq: 1)",
     "MOVE theta 1.0",
     "MOVE ro 1",
     "ADD n 1",
@@ -1096,7 +1098,7 @@ pub static C22: PropDef = PropDef {
     id: "C22",
     level: "model_checking",
     engine: "sweep",
-    rule: "every instruction sequence of length <= L over the 27-instruction frame/classical/control-flow menu x 3 terminators, built on a fixed 4-frame header; each is scheduled by the real ScheduledProgram and every block's graph is checked (edges forward, acyclic, rooted, reaches end). state = a schedulable program; non-trivial = schedulable program with at least one instruction-to-instruction edge (distinct by sequence)",
+    rule: "every instruction sequence of length <= L over the 28-instruction frame/classical/control-flow menu x 3 terminators, built on a fixed 4-frame header; each is scheduled by the real ScheduledProgram and every block's graph is checked (edges forward, acyclic, rooted, reaches end). state = a schedulable program; non-trivial = schedulable program with at least one instruction-to-instruction edge (distinct by sequence)",
     assumptions: ASSUME,
     run: |ctx| {
         let l = ctx.tier.pick(3, 5);
@@ -1115,7 +1117,7 @@ pub static C23: PropDef = PropDef {
     id: "C23",
     level: "model_checking",
     engine: "queue",
-    rule: "(A) every sequence of length <= L over a 19-instruction memory menu (regions a,b: every access shape, two captures into one region on disjoint non-blocking frames) and over the 27-instruction general menu, x 3 terminators, scheduled by the real code; (B) every access sequence (Read/Write/Capture) of length <= 8 (11 thorough) on one real DependencyQueue and every sequence of <= 4 (5) multi-queue actions on two queues, through the hook; (C) a TLA+ model of the queue (tla/DependencyQueue.tla) checked by TLC for TypeOK, SequentiallyConsistent, Justified, Rooted, PendingExact over all histories of length <= 6 (8), with EVERY state of TLC's dumped graph replayed on the real queue (conformance). non-trivial = program with >= 1 conflicting memory pair / queue sequence of length >= 2",
+    rule: "(A) every sequence of length <= L over a 19-instruction memory menu (regions a,b: every access shape, two captures into one region on disjoint non-blocking frames) and over the 28-instruction general menu, x 3 terminators, scheduled by the real code; (B) every access sequence (Read/Write/Capture) of length <= 8 (11 thorough) on one real DependencyQueue and every sequence of <= 4 (5) multi-queue actions on two queues, through the hook; (C) a TLA+ model of the queue (tla/DependencyQueue.tla) checked by TLC for TypeOK, SequentiallyConsistent, Justified, Rooted, PendingExact over all histories of length <= 6 (8), with EVERY state of TLC's dumped graph replayed on the real queue (conformance). non-trivial = program with >= 1 conflicting memory pair / queue sequence of length >= 2",
     assumptions: ASSUME,
     run: |ctx| {
         ctx.bound("menu_memory", json!(MENU_M));
@@ -1134,7 +1136,7 @@ pub static C24: PropDef = PropDef {
     id: "C24",
     level: "model_checking",
     engine: "queue",
-    rule: "(A) every sequence of length <= L over the 27-instruction general menu x 3 terminators on a 4-frame header (overlapping qubit sets; blocking and non-blocking pulses, captures, delays, fences, phase/frequency updates, reset), scheduled by the real code and compared with the reference frame rules; (B) every Blocking/Using sequence of length <= 8 (11) on one real frame DependencyQueue (implicit BlockStart writer) and <= 4 (5) actions on two queues, through the hook; (C) the TLA+ queue model with the initial BlockStart writer checked by TLC over all histories of length <= 8 (11), every model state replayed on the real frame queue (conformance). non-trivial = program with >= 1 conflicting frame pair",
+    rule: "(A) every sequence of length <= L over the 28-instruction general menu x 3 terminators on a 4-frame header (overlapping qubit sets; blocking and non-blocking pulses, captures, delays, fences, phase/frequency updates, reset), scheduled by the real code and compared with the reference frame rules; (B) every Blocking/Using sequence of length <= 8 (11) on one real frame DependencyQueue (implicit BlockStart writer) and <= 4 (5) actions on two queues, through the hook; (C) the TLA+ queue model with the initial BlockStart writer checked by TLC over all histories of length <= 8 (11), every model state replayed on the real frame queue (conformance). non-trivial = program with >= 1 conflicting frame pair",
     assumptions: ASSUME,
     run: |ctx| {
         ctx.bound("menu", json!(MENU_F));
